@@ -107,6 +107,9 @@ mod csv;
 #[cfg(feature = "textvalidation")]
 mod textvalidation;
 
+#[cfg(stam_verif)]
+pub mod verif_hooks;
+
 // Our internal crate structure is not very relevant to the outside world,
 // expose all structs and traits in the root namespace, and be explicit about it:
 
